@@ -414,6 +414,9 @@ class ClientVisitor:
             writer.write_line(
                 f"self._{module_name} = {module_name} if {module_name} is not None else {mock_class_name}()"
             )
+        if not tag_tuples:
+            # A document without operations has no tag clients: the constructor still needs a body
+            writer.write_line("pass")
         writer.dedent()
         writer.write_line("")
 
